@@ -631,5 +631,84 @@ func ruleDataMatrixEncoder(c *Ctx) {
 				}
 			}
 		}
+		// the codeword cursor: every placement takes data[cursor], advances the cursor by one in its
+		// own block, and no second placement on the same path sees the same cursor value
+		type placement struct {
+			call   *ssa.Call
+			cursor ssa.Value
+		}
+		var pls []placement
+		plN := map[string]int{}
+		eachInstr(fn, func(b *ssa.BasicBlock, ins ssa.Instruction) {
+			call, ok := ins.(*ssa.Call)
+			if !ok || calleeOf(call) == nil {
+				return
+			}
+			switch calleeOf(call).Name() {
+			case "Corner1", "Corner2", "Corner3", "Corner4", "SetSimple":
+			default:
+				return
+			}
+			args := call.Common().Args
+			plN[calleeOf(call).Name()]++
+			key := fmt.Sprintf("datamatrix.SetValues/codeword/%s#%d", calleeOf(call).Name(), plN[calleeOf(call).Name()])
+			ld, ok := args[len(args)-1].(*ssa.UnOp)
+			var ia *ssa.IndexAddr
+			if ok {
+				ia, _ = ld.X.(*ssa.IndexAddr)
+			}
+			if ia == nil || ia.X != ssa.Value(fn.Params[1]) {
+				c.Check(R3, key, call.Pos(), false, "places data[cursor]", n.Norm(args[len(args)-1]).String())
+				return
+			}
+			pls = append(pls, placement{call, ia.Index})
+			adv := 0
+			other := ""
+			for _, r := range *ia.Index.Referrers() {
+				if bo, ok := r.(*ssa.BinOp); ok && bo.Block() == b && (bo.Op == token.ADD || bo.Op == token.SUB) && bo.X == ia.Index {
+					if k, ok := constInt(bo.Y); ok && k == 1 && bo.Op == token.ADD {
+						adv++
+					} else {
+						other = bo.String()
+					}
+				}
+			}
+			c.Check(R3, key, call.Pos(), adv == 1 && other == "", "cursor advanced by exactly one next to the placement", fmt.Sprintf("%d increments %s", adv, other))
+		})
+		for i, p1 := range pls {
+			for j, p2 := range pls {
+				if i == j || p1.cursor != p2.cursor {
+					continue
+				}
+				var defBlk *ssa.BasicBlock
+				if ins, ok := p1.cursor.(ssa.Instruction); ok {
+					defBlk = ins.Block()
+				}
+				again := p1.call.Block() == p2.call.Block()
+				if !again {
+					seen := map[*ssa.BasicBlock]bool{}
+					var walk func(b *ssa.BasicBlock)
+					walk = func(b *ssa.BasicBlock) {
+						if seen[b] || b == defBlk {
+							return
+						}
+						seen[b] = true
+						if b == p2.call.Block() {
+							again = true
+						}
+						for _, s := range b.Succs {
+							walk(s)
+						}
+					}
+					for _, s := range p1.call.Block().Succs {
+						walk(s)
+					}
+				}
+				if again {
+					c.Check(R3, fmt.Sprintf("datamatrix.SetValues/codeword-once/%s-%s", calleeOf(p1.call).Name(), calleeOf(p2.call).Name()), p2.call.Pos(), false, "each codeword is placed once", fmt.Sprintf("the placement at %s sees the same cursor value as the one at %s", c.P.Pos(p2.call.Pos()), c.P.Pos(p1.call.Pos())))
+				}
+			}
+		}
+		c.Check(R3, "datamatrix.SetValues/placements", fn.Pos(), len(pls) >= 6, "four corner placements and the two diagonal sweeps take codewords from the cursor", fmt.Sprint(len(pls)))
 	}
 }
